@@ -1234,3 +1234,4 @@ for _nm in ("ClimateNetwork._calculate_threshold_adjacency",):
     REG[_nm][0].contract.rtc_py = True
 from contracts import kernels2  # noqa: E402,F401
 from contracts import uses_extra_ts  # noqa
+from contracts import uses_extra_core  # noqa
